@@ -210,6 +210,29 @@ fn bounds_case(s: &str) -> CaseOut {
     }
 }
 
+/// (tag, input) pairs for the long_strings section
+fn long_inputs() -> Vec<(String, String)> {
+    let mut out = Vec::new();
+    for n in [254usize, 255, 256, 257, 258, 65533, 65534, 65535, 65536, 65537, 65538, 70000, 131071, 131072, 131073] {
+        out.push((format!("ascii:{}", n), "a".repeat(n)));
+        // a multi-byte character whose bytes straddle position n - 1 / n
+        for (cn, ch) in [("e2", "\u{e9}"), ("e3", "\u{20ac}")] {
+            let mut s = "a".repeat(n - 1);
+            s.push_str(ch);
+            s.push_str("tail");
+            out.push((format!("{}:{}", cn, n), s));
+        }
+        let mut s = "b".repeat(n + 3);
+        s.push('\0');
+        s.push_str("after");
+        out.push((format!("nul_after:{}", n), s));
+        let mut s = "c".repeat(n);
+        s.push('\0');
+        out.push((format!("nul_terminated:{}", n), s));
+    }
+    out
+}
+
 fn all_strings(l: usize) -> Vec<String> {
     let k = SYMBOLS.len();
     let mut out = Vec::new();
@@ -284,12 +307,29 @@ fn main() {
         }),
         replay: Box::new(|c: &Value| bounds_case(c["input"].as_str().unwrap())),
     };
+    let long = Section {
+        name: "long_strings",
+        explore: Box::new(|cx: &Cx| {
+            cx.rule("long_strings", "strings far beyond the enumeration bound, around every 16-bit and 8-bit length boundary (254..=258, 65533..=65538, 70000, 131071..=131073 bytes): all-ASCII, with a 2-byte / 3-byte character straddling the boundary, with an interior NUL after the boundary and NUL-terminated; every constructor; same oracle as the short strings");
+            for (tag, s) in long_inputs() {
+                for ctor in [Ctor::Str, Ctor::String, Ctor::Bytes, Ctor::StringSpare7] {
+                    let cj = json!({"long": tag, "ctor": format!("{:?}", ctor)});
+                    cx.eval("long_strings", &cj, || run(&s, ctor));
+                }
+            }
+        }),
+        replay: Box::new(|c: &Value| {
+            let tag = c["long"].as_str().unwrap().to_string();
+            let s = long_inputs().into_iter().find(|x| x.0 == tag).expect("long input").1;
+            run(&s, ctor_of(c["ctor"].as_str().unwrap()))
+        }),
+    };
     explore::run_main(CheckDef {
         property: "C14",
         level: "exploration",
         assumptions: vec!["inputs longer than the bound are not covered".into(), "the tracking allocator's red zone (0xA5.., NUL-terminated) makes an over-read terminate deterministically".into()],
         sections: vec![mk("from_str", Ctor::Str), mk("from_string", Ctor::String), mk("from_bytes", Ctor::Bytes),
-            mk("from_string_spare1", Ctor::StringSpare1), mk("from_string_spare7", Ctor::StringSpare7), mk("from_string_spare64", Ctor::StringSpare64), clone_from, bounds],
+            mk("from_string_spare1", Ctor::StringSpare1), mk("from_string_spare7", Ctor::StringSpare7), mk("from_string_spare64", Ctor::StringSpare64), clone_from, bounds, long],
         no_isolation: false,
     });
 }
